@@ -368,12 +368,8 @@ fn get_bool(d: &[(String, String)], name: &str) -> Result<bool, String> {
 }
 
 fn panic_site(p: &str) -> String {
-    // "src/x.rs:12:3: message" -> "src/x.rs:12"
-    let mut it = p.splitn(3, ':');
-    match (it.next(), it.next()) {
-        (Some(f), Some(l)) => format!("{f}:{l}"),
-        _ => p.to_string(),
-    }
+    // file + normalised message (no line number): survives unrelated edits
+    vp::rs::panic_site(p)
 }
 
 /// Compile and return the declarations, or the verdict for a failed run.
